@@ -335,6 +335,10 @@ class Engine(object):
                     return st.objreg[cid]
                 if cid in self.repo.func_by_id:
                     return self.repo.func_by_id[cid]
+                if 500 < cid < 500 + 400 and v.ty in (None, "any", "callable"):
+                    for ci in self.repo.classes.values():
+                        if ci.tag == cid - 500:
+                            return Cls(ci.name)
                 if cid in st.objcls and v.ty is None:
                     return Z(v.t, ("inst", st.objcls[cid]))
         return v
@@ -631,6 +635,13 @@ class Engine(object):
         for oid in st.futs_seen:
             st.assume(monotone(z3.Select(old_f[0], oid), z3.Select(old_f[1], oid), z3.Select(old_f[2], oid),
                                z3.Select(new_f[0], oid), z3.Select(new_f[1], oid), z3.Select(new_f[2], oid)))
+        # fields that every function writing them restores before it returns (balanced counters): a re-entrant activation on
+        # this thread leaves them as it found them, other threads cannot write them while the lock is held
+        rb = getattr(cfg, "reentrant_balanced", {})
+        for (lid, kind, owner, lf) in st.held:
+            for name, lf2 in rb.items():
+                if lf == lf2 and owner is not None and name in old:
+                    st.assume(st.get(name, owner) == z3.Select(old[name], owner))
         hook = getattr(cfg, "after_interfere", None)
         if hook:
             hook(self, st, old, why)
@@ -926,6 +937,11 @@ class Engine(object):
                 if isinstance(op, ast.IsNot):
                     r = (not r) if isinstance(r, bool) else z3.Not(r)
                 yield st1, (r if isinstance(r, bool) else Z(r, "bool"))
+            elif isinstance(op, (ast.Lt, ast.LtE, ast.Gt, ast.GtE)) and isinstance(a, Builtin) and a.name == "version_info" \
+                    and isinstance(b, TupleV) and all(isinstance(x, int) for x in b.items):
+                # A-PYVER: version-dependent branches are evaluated for the interpreter the repository's suite runs on (3.12)
+                cur, other = (3, 12), tuple(b.items)
+                yield st1, {ast.Lt: cur < other, ast.LtE: cur <= other, ast.Gt: cur > other, ast.GtE: cur >= other}[type(op)]
             elif isinstance(op, (ast.Lt, ast.LtE, ast.Gt, ast.GtE)):
                 for r in self.b.compare_order(self, st1, fr, op, a, b, e):
                     yield r
@@ -1092,6 +1108,16 @@ class Engine(object):
             return
         if name in self.instance_fields(cname) or ci.namedtuple_fields and name in ci.namedtuple_fields:
             ty = self.field_type(cname, name)
+            pend = st.ghost.get("ctor_ty")
+            if pend and any(p[2] == name and p[3].eq(oid) for p in pend):
+                # read inside the constructor of a field whose type invariant is not established yet: the declared type is
+                # used only if it provably holds for the value now in the field (no assumption is made)
+                cur = st.get(self.heap_key(cname, name), oid)
+                if ty is not None and self.must(st, self.ty_formula(st, cur, ty)):
+                    yield st, self.typed(st, cur, ty)
+                else:
+                    yield st, self.resolve(st, Z(z3.simplify(cur), None))
+                return
             yield st, self.typed(st, st.get(self.heap_key(cname, name), oid), ty)
             return
         if f is not None:
@@ -1127,10 +1153,16 @@ class Engine(object):
             oid = Val.id(o.t)
             t = self.to_val(st, v)
             ty = self.field_type(cname, name)
-            if ty is not None:
-                self.oblige(st, fr, "type-invariant %s.%s" % (cname, name), "TY", self.ty_formula(st, t, ty),
-                            info={"site": self.site(fr, node)})
             cid = self.concrete_id(o.t)
+            if ty is not None:
+                selfv = st.envs[fr.eid].get("self") if fr.func is not None and fr.func.qualname.endswith(".__init__") else None
+                if selfv is not None and isinstance(selfv, Z) and selfv.t.eq(o.t) and cid is not None and cid in st.private:
+                    # the object under construction is private to its constructor: field types are invariants from the
+                    # constructor's exit on (checked there, on the final value of every field it wrote)
+                    st.ghost["ctor_ty"] = st.ghost.get("ctor_ty", ()) + ((fr.eid, cname, name, oid, self.site(fr, node)),)
+                else:
+                    self.oblige(st, fr, "type-invariant %s.%s" % (cname, name), "TY", self.ty_formula(st, t, ty),
+                                info={"site": self.site(fr, node)})
             if cid is None or cid not in st.private:
                 self.escape(st, t)
             st.put(self.heap_key(cname, name), oid, t)
@@ -1175,7 +1207,7 @@ class Engine(object):
             yield st, Raise(self.new_exc(st, "AttributeError", "'super' object has no attribute %s" % fn[1]))
             return
         if isinstance(fn, Func):
-            if fn.kind == "classmethod" and fn.owner is not None:
+            if fn.kind == "classmethod" and fn.owner is not None and not getattr(fn, "raw", False):
                 raise Unsupported("unbound classmethod call")
             for r in self.call_func(st, fr, fn, args, kwargs, star, starkw, node):
                 yield r
@@ -1387,6 +1419,13 @@ class Engine(object):
 
     def call_func(self, st, fr, func, args, kwargs, star, starkw, node, env=None, self_cls=None):
         """Call a repository function: by contract if one is registered for call sites, else inline."""
+        pre = getattr(self.cfg, "preconditions", {}).get(func.qualname)
+        if pre is not None:
+            # `requires` clause of the callee, checked at every call site (and at the unit's own entry)
+            for item in pre(self, st, fr, args, kwargs):
+                nm, f = item[0], item[1]
+                self.oblige(st, fr, "requires %s: %s" % (func.qualname.split(".")[-1], nm), "PRE", f, info={"site": self.site(fr, node)},
+                            props=item[2] if len(item) > 2 else None)
         con = self.cfg.contracts.get(func.qualname)
         if con is not None and not getattr(con, "inline", False) and not (fr is not None and fr.depth == -1):
             # (the unit's own entry is executed; a contract registered for the same function applies to recursive calls)
@@ -1436,6 +1475,18 @@ class Engine(object):
                         yield r
                     continue
                 for s1, ctrl in self.exec_block(func.node.body, s0, nfr):
+                    if (ctrl is None or ctrl[0] == "return") and s1.ghost.get("ctor_ty"):
+                        mine = [p for p in s1.ghost["ctor_ty"] if p[0] == nfr.eid]
+                        if mine:
+                            s1.ghost["ctor_ty"] = tuple(p for p in s1.ghost["ctor_ty"] if p[0] != nfr.eid)
+                            seen = set()
+                            for (_e, cname_, fname_, oid_, site_) in mine:
+                                if (cname_, fname_) in seen:
+                                    continue
+                                seen.add((cname_, fname_))
+                                self.oblige(s1, nfr, "type-invariant %s.%s" % (cname_, fname_), "TY",
+                                            self.ty_formula(s1, s1.get(self.heap_key(cname_, fname_), oid_), self.field_type(cname_, fname_)),
+                                            info={"site": site_, "at": "constructor exit"})
                     if ctrl is None:
                         yield s1, None
                     elif ctrl[0] == "return":
